@@ -4,36 +4,63 @@ From HL Require Import Base Model Shape Algo Api Conc OpsLemmas Lemmas ShapeLemm
 
 (* ---------------------------------------------------------------- programs that drop their guards *)
 (* g: a guard may be live.  No guard is forgotten, and none is live when the thread's program ends. *)
-Fixpoint closed (g : bool) (ops : list apiop) : bool :=
+(* [np]: additionally, user code never panics (no `panic!` op, no panicking closure): the setting of "executions without
+   panics never poison" (C10) *)
+Definition nopanic_cb (body : list csop) : bool :=
+  negb (existsb (fun o => match o with CPanic => true | _ => false end) body).
+Definition nopanicb (o : apiop) : bool :=
+  match o with
+  | APanic => false
+  | AAcquire _ _ (FScoped _ body | FScopedTry _ body) => nopanic_cb body
+  | _ => true
+  end.
+
+Lemma nopanicb_ok o : nopanicb o = true -> nopanic_op o.
+Proof.
+  destruct o as [| | |c m f| | | | | | | | |]; cbn [nopanicb nopanic_op]; try (intros; exact I); try discriminate.
+  destruct f as [| |lent body|lent body]; try (intros; exact I); unfold nopanic_cb, no_cpanic; intros E X;
+    apply negb_true_iff in E; assert (Y : existsb (fun o => match o with CPanic => true | _ => false end) body = true)
+      by (apply existsb_exists; exists CPanic; split; [exact X|reflexivity]); congruence.
+Qed.
+
+Fixpoint closedz (np g : bool) (ops : list apiop) : bool :=
   match ops with
   | [] => negb g
   | o :: r =>
+      (negb np || nopanicb o) &&
       match o with
       | AGuardForget => false
-      | AAcquire _ _ (FGuard | FTry) => closed true r
-      | AGuardDrop | AGuardUnlock | APanic => closed false r
-      | _ => closed g r
+      | AAcquire _ _ (FGuard | FTry) => closedz np true r
+      | AGuardDrop | AGuardUnlock | APanic => closedz np false r
+      | _ => closedz np g r
       end
   end.
+Notation closed := (closedz false).
 
 Definition gflag (lc : tlocal) : bool := match guard lc with Some _ => true | None => false end.
 
-Lemma closed_mono ops : closed true ops = true -> closed false ops = true.
+Lemma closed_mono np ops : closedz np true ops = true -> closedz np false ops = true.
 Proof.
-  induction ops as [|o r IH]; cbn [closed]; [discriminate|].
+  induction ops as [|o r IH]; cbn [closedz]; [discriminate|]. intros C. apply andb_true_iff in C. destruct C as [C0 C].
+  rewrite C0. cbn [andb]. revert C.
   destruct o as [| | |c m f| | | | | | | | |]; try exact IH; try (intros X; exact X).
   destruct f; try exact IH; intros X; exact X.
 Qed.
 
-Lemma closed_weaken g ops : closed true ops = true -> closed g ops = true.
+Lemma closed_weaken np g ops : closedz np true ops = true -> closedz np g ops = true.
 Proof. destruct g; [auto|apply closed_mono]. Qed.
 
-Lemma closed_not_forget g o r : closed g (o :: r) = true -> o <> AGuardForget.
-Proof. intros C E. subst o. cbn [closed] in C. discriminate. Qed.
+Lemma closed_not_forget np g o r : closedz np g (o :: r) = true -> o <> AGuardForget.
+Proof. intros C E. subst o. cbn [closedz] in C. apply andb_true_iff in C. destruct C as [_ C]. discriminate. Qed.
 
-Lemma closed_skip e lc o r : api_prog e lc o = None -> closed (gflag lc) (o :: r) = true -> closed (gflag lc) r = true.
+Lemma closed_head np g o r : closedz np g (o :: r) = true -> np = true -> nopanic_op o.
 Proof.
-  intros E C. cbn [closed] in C. unfold gflag in *.
+  intros C E. subst np. cbn [closedz negb orb] in C. apply andb_true_iff in C. destruct C as [C _]. now apply nopanicb_ok.
+Qed.
+
+Lemma closed_skip np e lc o r : api_prog e lc o = None -> closedz np (gflag lc) (o :: r) = true -> closedz np (gflag lc) r = true.
+Proof.
+  intros E C. cbn [closedz] in C. apply andb_true_iff in C. destruct C as [_ C]. unfold gflag in *.
   destruct o as [| | |c m f| | | | | | | | |]; cbn [api_prog] in E; try exact C; try discriminate C.
   - destruct f; try exact C; now apply closed_weaken.
   - destruct (guard lc); [discriminate E|exact C].
@@ -41,10 +68,10 @@ Proof.
   - destruct (guard lc); discriminate E.
 Qed.
 
-Lemma closed_step e lc o r out :
-  closed (gflag lc) (o :: r) = true -> closed (gflag (fst (api_fin e lc o out))) r = true.
+Lemma closed_step np e lc o r out :
+  closedz np (gflag lc) (o :: r) = true -> closedz np (gflag (fst (api_fin e lc o out))) r = true.
 Proof.
-  intros C. cbn [closed] in C. unfold gflag in *.
+  intros C. cbn [closedz] in C. apply andb_true_iff in C. destruct C as [_ C]. unfold gflag in *.
   destruct o as [| | |c m f| | | |pos|pos| |c|c|c]; try discriminate C; try destruct f;
     destruct out as [[|bb|[|[|[|n]]]]| | | |]; cbn [api_fin fst guard]; destruct (guard lc);
     first [exact C | apply closed_mono; exact C].
@@ -71,7 +98,7 @@ Proof. revert t. induction l as [|x r IH]; intros [|t] L; cbn [length] in L; try
 
 Lemma agree_clear t w H K : agree t w H K -> agree t (clear_trace w) H K.
 Proof. apply agree_ext; intros; reflexivity. Qed.
-Lemma clean_clear w : clean w -> clean (clear_trace w).
+Lemma clean_clear pz w : clean pz w -> clean pz (clear_trace w).
 Proof. apply clean_ext; intros; reflexivity. Qed.
 
 (* with ra = false the flag lr is never read *)
@@ -108,6 +135,10 @@ Variable blk : apiop -> list hold -> lock -> Prop.
 Variable yr : bool.
 (* ... and "a thread whose call has run to its end pauses before the call returns" (Conc.drain_calls / settle) *)
 Variable pb : bool.
+(* whether poison flags may be set at all (Wp.v), and the matching side condition on the threads' programs *)
+Variable pz : Prop.
+Variable npb : bool.
+Hypothesis PZ : npb = false -> pz.
 
 Hypothesis EO : env_ok blk e.
 
@@ -121,7 +152,7 @@ Proof. destruct out; cbn [out_post]; unfold Qr_of, Qt_of, QF_of; tauto. Qed.
 
 Lemma wp_term_of bl lc o out H K :
   out_post (Qr_of lc o) (Qt_of lc o) (QF_of lc o) out H K ->
-  Wp.wp bl (Op bpause_op (fun _ => term_of out)) H K (Qr_of lc o) (Qt_of lc o) (QF_of lc o).
+  Wp.wp bl pz (Op bpause_op (fun _ => term_of out)) H K (Qr_of lc o) (Qt_of lc o) (QF_of lc o).
 Proof. destruct out; cbn [out_post term_of Wp.wp bpause_op]; tauto. Qed.
 
 (* what is known of thread t *)
@@ -129,10 +160,10 @@ Definition TI (t : tid) (th : thr) (w : world) : Prop :=
   exists H K, agree t w H K /\
   if th_over th then H = []
   else match th_cur th with
-       | None => th_started th = false /\ TB (th_loc th) H K /\ closed (gflag (th_loc th)) (th_rest th) = true
-       | Some (o, p) => th_started th = true /\ closed (gflag (th_loc th)) (o :: th_rest th) = true /\
+       | None => th_started th = false /\ TB (th_loc th) H K /\ closedz npb (gflag (th_loc th)) (th_rest th) = true
+       | Some (o, p) => th_started th = true /\ closedz npb (gflag (th_loc th)) (o :: th_rest th) = true /\
                         (exists op, nextop p = NOp op) /\
-                        Wp.wp (blk o) p H K (Qr_of (th_loc th) o) (Qt_of (th_loc th) o) (QF_of (th_loc th) o)
+                        Wp.wp (blk o) pz p H K (Qr_of (th_loc th) o) (Qt_of (th_loc th) o) (QF_of (th_loc th) o)
        end.
 
 Definition frame (t : tid) (w w' : world) : Prop :=
@@ -142,9 +173,9 @@ Lemma frame_trans t w1 w2 w3 : frame t w1 w2 -> frame t w2 w3 -> frame t w1 w3.
 Proof. intros A B u Hu Ku N X. apply B; [exact N|]. apply A; assumption. Qed.
 
 Lemma drain_calls_inv t : forall rest loc w evs H K th' w' evs',
-  agree t w H K -> clean w -> TB loc H K -> closed (gflag loc) rest = true ->
+  agree t w H K -> clean pz w -> TB loc H K -> closedz npb (gflag loc) rest = true ->
   drain_calls false false pb e t loc rest w evs = (th', w', evs') ->
-  TI t th' w' /\ clean w' /\ frame t w w'.
+  TI t th' w' /\ clean pz w' /\ frame t w w'.
 Proof.
   induction rest as [|o r IH]; intros loc w evs H K th' w' evs' A C T CL E; cbn [drain_calls] in E.
   - inversion E; subst. split; [|split; [exact C|intros u Hu Ku _ X; exact X]].
@@ -152,8 +183,10 @@ Proof.
     cbn [closed] in CL. unfold gflag in CL. unfold TB in T. destruct (guard loc); [discriminate|]. exact (proj1 T).
   - destruct (api_prog e loc o) as [p|] eqn:EP.
     2:{ eapply IH; [exact A|exact C|exact T| |exact E]. eapply closed_skip; eassumption. }
-    pose proof (api_wp blk e loc o p H K EO T (closed_not_forget _ _ _ CL) EP) as W.
-    pose proof (wp_adv (blk o) t p (clear_trace w) H K _ _ _ W (agree_clear _ _ _ _ A) (clean_clear _ C)) as D.
+    assert (ZN : pz \/ nopanic_op o).
+    { destruct npb eqn:NB; [right; eapply closed_head; [exact CL|reflexivity]|left; now apply PZ]. }
+    pose proof (api_wp blk pz e loc o p H K EO T (closed_not_forget _ _ _ _ CL) EP ZN) as W.
+    pose proof (wp_adv (blk o) pz t p (clear_trace w) H K _ _ _ W (agree_clear _ _ _ _ A) (clean_clear _ _ C)) as D.
     assert (FR : forall out w1, adv false false t p (clear_trace w) = AFin out w1 \/ (exists p1, adv false false t p (clear_trace w) = APark p1 w1) -> frame t w w1).
     { intros out w1 X u Hu Ku N Y. pose proof (adv_other t u p (clear_trace w) Hu Ku N (agree_clear _ _ _ _ Y)) as Z.
       destruct X as [X|[p1 X]]; rewrite X in Z; exact Z. }
@@ -165,7 +198,7 @@ Proof.
         exists H1, K1. split; [exact A1|]. cbn [th_over th_cur th_started th_loc th_rest].
         split; [reflexivity|]. split; [exact CL|]. split; [exists bpause_op; reflexivity|]. now apply wp_term_of. }
       apply out_post_fin in P1.
-      pose proof (closed_step e loc o r out CL) as CL1.
+      pose proof (closed_step _ e loc o r out CL) as CL1.
       destruct (api_fin e loc o out) as [lc' rc] eqn:EF. cbn [fst snd] in *. destruct P1 as [T1 ST].
       destruct (stops rc) eqn:S.
       * inversion E; subst. split; [|split; [exact C1|apply (FR out w'); now left]].
@@ -179,13 +212,13 @@ Proof.
 Qed.
 
 Lemma settle_inv pbnow t o loc rest p w evs H K th' w' evs' :
-  agree t w H K -> clean w -> closed (gflag loc) (o :: rest) = true ->
-  Wp.wp (blk o) p H K (Qr_of loc o) (Qt_of loc o) (QF_of loc o) ->
+  agree t w H K -> clean pz w -> closedz npb (gflag loc) (o :: rest) = true ->
+  Wp.wp (blk o) pz p H K (Qr_of loc o) (Qt_of loc o) (QF_of loc o) ->
   settle false false pbnow pb e t o loc rest p w evs = (th', w', evs') ->
-  TI t th' w' /\ clean w' /\ frame t w w'.
+  TI t th' w' /\ clean pz w' /\ frame t w w'.
 Proof.
   intros A C CL W E. unfold settle in E.
-  pose proof (wp_adv (blk o) t p (clear_trace w) H K _ _ _ W (agree_clear _ _ _ _ A) (clean_clear _ C)) as D.
+  pose proof (wp_adv (blk o) pz t p (clear_trace w) H K _ _ _ W (agree_clear _ _ _ _ A) (clean_clear _ _ C)) as D.
   assert (FR : forall out w1, adv false false t p (clear_trace w) = AFin out w1 \/ (exists p1, adv false false t p (clear_trace w) = APark p1 w1) -> frame t w w1).
   { intros out w1 X u Hu Ku N Y. pose proof (adv_other t u p (clear_trace w) Hu Ku N (agree_clear _ _ _ _ Y)) as Z.
     destruct X as [X|[p1 X]]; rewrite X in Z; exact Z. }
@@ -196,7 +229,7 @@ Proof.
       exists H1, K1. split; [exact A1|]. cbn [th_over th_cur th_started th_loc th_rest].
       split; [reflexivity|]. split; [exact CL|]. split; [exists bpause_op; reflexivity|]. now apply wp_term_of. }
     apply out_post_fin in P1.
-    pose proof (closed_step e loc o rest out CL) as CL1.
+    pose proof (closed_step _ e loc o rest out CL) as CL1.
     destruct (api_fin e loc o out) as [lc' rc] eqn:EF. cbn [fst snd] in *. destruct P1 as [T1 ST].
     destruct (stops rc) eqn:S.
     + inversion E; subst. split; [|split; [exact C1|apply (FR out w'); now left]].
@@ -215,7 +248,7 @@ Definition nobody (u : tid) (w : world) : Prop := exists K, agree u w [] K.
 
 Record GI (n : nat) (s : bstate) : Prop := {
   gi_len : length (b_thr s) = n;
-  gi_clean : clean (b_w s);
+  gi_clean : clean pz (b_w s);
   gi_thr : forall t, t < n -> TI t (get_thr (b_thr s) t) (b_w s);
   gi_out : forall u, n <= u -> nobody u (b_w s)
 }.
@@ -237,7 +270,7 @@ Proof.
   intros G EN. destruct (enabled_live s t EN) as [Lt OV]. rewrite (gi_len _ _ G) in Lt.
   unfold turn_g.
   pose proof (gi_thr _ _ G t Lt) as [H [K [A R]]]. rewrite OV in R.
-  assert (UPD : forall th' w' evs' nt, TI t th' w' -> clean w' -> frame t (b_w s) w' ->
+  assert (UPD : forall th' w' evs' nt, TI t th' w' -> clean pz w' -> frame t (b_w s) w' ->
                 GI n (mkb w' (set_nth (b_thr s) t th') evs' nt)).
   { intros th' w' evs' nt I C F. constructor; cbn [b_thr b_w].
     - rewrite set_nth_length. apply (gi_len _ _ G).
@@ -248,8 +281,8 @@ Proof.
     - intros u Gu. destruct (gi_out _ _ G u Gu) as [Ku Au]. exists Ku. apply F; [lia|exact Au]. }
   destruct (th_cur (get_thr (b_thr s) t)) as [[o p]|] eqn:CU.
   - destruct R as [ST [CL [NX W]]]. rewrite ST. cbn [negb].
-    pose proof (wp_step (blk o) (pendw wpol (b_thr s) t) t p (clear_trace (b_w s)) H K _ _ _ W
-                        (agree_clear _ _ _ _ A) (clean_clear _ (gi_clean _ _ G))) as D.
+    pose proof (wp_step (blk o) pz (pendw wpol (b_thr s) t) t p (clear_trace (b_w s)) H K _ _ _ W
+                        (agree_clear _ _ _ _ A) (clean_clear _ _ (gi_clean _ _ G))) as D.
     assert (FS : forall p' w1, step (pendw wpol (b_thr s) t) t p (clear_trace (b_w s)) = SStep p' w1 -> frame t (b_w s) w1).
     { intros p' w1 X u Hu Ku N Y.
       pose proof (step_other (pendw wpol (b_thr s) t) t u p (clear_trace (b_w s)) Hu Ku N (agree_clear _ _ _ _ Y)) as Z.
@@ -332,7 +365,7 @@ Proof.
   destruct (th_over (get_thr (b_thr s) t)); cbn [orb] in PK; [discriminate|].
   destruct (th_started (get_thr (b_thr s) t)); cbn [negb] in PK; [|discriminate].
   destruct (th_cur (get_thr (b_thr s) t)) as [[o p]|]; [|discriminate].
-  destruct R as [_ [_ [_ W]]]. pose proof (wp_nextop (blk o) p H K _ _ _ W) as N.
+  destruct R as [_ [_ [_ W]]]. pose proof (wp_nextop (blk o) pz p H K _ _ _ W) as N.
   destruct (nextop p) as [v| | | |op]; try discriminate. inversion PK; subst op.
   exists H, K, o, p. split; [exact A|]. split; [reflexivity|exact (proj1 N BL)].
 Qed.
@@ -348,7 +381,7 @@ Proof.
     destruct (gi_thr _ _ G t Lt) as [H [K [A R]]]. rewrite OV in R. unfold parked in PK. rewrite OV in PK.
     destruct (th_started (get_thr (b_thr s) t)); cbn [negb orb] in PK; [|discriminate].
     destruct (th_cur (get_thr (b_thr s) t)) as [[o p]|]; [|discriminate].
-    destruct R as [_ [_ [_ W]]]. pose proof (wp_nextop (blk o) p H K _ _ _ W) as N.
+    destruct R as [_ [_ [_ W]]]. pose proof (wp_nextop (blk o) pz p H K _ _ _ W) as N.
     destruct (nextop p) as [v| | | |op]; try discriminate. inversion PK; subst op.
     destruct (BR _ _ _ (proj1 N BL)) as [_ RK]. destruct (agree_holds t (b_w s) H K l' A HH) as [x Hx]. apply (RK _ Hx).
   - intros l. apply rk_bound.
@@ -357,7 +390,7 @@ Proof.
     destruct (gi_thr _ _ G t Lt) as [H [K [A R]]]. rewrite OV in R. unfold parked in PK. rewrite OV in PK.
     destruct (th_started (get_thr (b_thr s) t)); cbn [negb orb] in PK; [|discriminate].
     destruct (th_cur (get_thr (b_thr s) t)) as [[o p]|]; [|discriminate].
-    destruct R as [_ [_ [_ W]]]. pose proof (wp_nextop (blk o) p H K _ _ _ W) as N.
+    destruct R as [_ [_ [_ W]]]. pose proof (wp_nextop (blk o) pz p H K _ _ _ W) as N.
     destruct (nextop p) as [v| | | |op]; try discriminate. inversion PK; subst op.
     exact (proj1 (BR _ _ _ (proj1 N BL))).
   - (* holders are live threads *)
@@ -379,7 +412,7 @@ Qed.
 Hypothesis PRE : sc_pre sc = [].
 Hypothesis F1 : sc_f1 sc = [].
 Hypothesis FP : sc_fp sc = [].
-Hypothesis CLOSED : Forall (fun ops => closed false ops = true) (bs_progs b).
+Hypothesis CLOSED : Forall (fun ops => closedz npb false ops = true) (bs_progs b).
 
 Lemma init_agree u : agree u (sc_world sc) [] false.
 Proof.
@@ -413,7 +446,7 @@ Proof.
   intros G.
   assert (X : forall op, parked (get_thr (b_thr s) t) = Some op ->
               exists H K o p, agree t (b_w s) H K /\ nextop p = NOp op /\
-                              Wp.wp (blk o) p H K (Qr_of (th_loc (get_thr (b_thr s) t)) o) (Qt_of (th_loc (get_thr (b_thr s) t)) o)
+                              Wp.wp (blk o) pz p H K (Qr_of (th_loc (get_thr (b_thr s) t)) o) (Qt_of (th_loc (get_thr (b_thr s) t)) o)
                                  (QF_of (th_loc (get_thr (b_thr s) t)) o)).
   { intros op PK. destruct (Nat.lt_ge_cases t n) as [Lt|Ge].
     2:{ unfold get_thr in PK. rewrite nth_overflow in PK by (rewrite (gi_len _ _ G); exact Ge). discriminate. }
@@ -423,7 +456,7 @@ Proof.
     destruct (th_cur (get_thr (b_thr s) t)) as [[o p]|]; [|discriminate].
     destruct R as [_ [_ [_ W]]]. destruct (nextop p) as [v| | | |op'] eqn:N; try discriminate. inversion PK; subst op'.
     exists H, K, o, p. auto. }
-  split; intros PK; destruct (X _ PK) as [H [K [o [p [A [N W]]]]]]; pose proof (wp_nextop (blk o) p H K _ _ _ W) as D; rewrite N in D.
+  split; intros PK; destruct (X _ PK) as [H [K [o [p [A [N W]]]]]]; pose proof (wp_nextop (blk o) pz p H K _ _ _ W) as D; rewrite N in D.
   - destruct D as [x Hx]. destruct A as [A1 [A2 _]]. unfold holds_b. destruct x.
     + apply hcount_in in Hx. rewrite A1 in Hx. destruct (writer_is (w_raw (b_w s) l) t); [reflexivity|lia].
     + apply hcount_in in Hx. rewrite A2 in Hx. assert (M : memb t (readers (w_raw (b_w s) l)) = true) by (apply cnt_memb; exact Hx).
@@ -446,7 +479,7 @@ Proof.
   destruct (th_over (get_thr (b_thr s) t)); cbn [orb] in PK; [discriminate|].
   destruct (th_started (get_thr (b_thr s) t)); cbn [negb] in PK; [|discriminate].
   destruct (th_cur (get_thr (b_thr s) t)) as [[o p]|]; [|discriminate].
-  destruct R as [_ [_ [_ W]]]. pose proof (wp_nextop (blk o) p H K _ _ _ W) as N.
+  destruct R as [_ [_ [_ W]]]. pose proof (wp_nextop (blk o) pz p H K _ _ _ W) as N.
   destruct (nextop p) as [v| | | |op]; try discriminate. inversion PK; subst op. destruct N as [_ N].
   destruct A as [A1 [A2 _]]. destruct k; try exact I; cbn [rop_ex] in N; apply hcount_in in N.
   - rewrite A1 in N. destruct (writer_is (w_raw (b_w s) l) t); [reflexivity|lia].
@@ -580,17 +613,18 @@ Definition is_nilb {A} (l : list A) : bool := match l with [] => true | _ => fal
 
 (* the scenarios the theorems speak about: no ghost holds, no injected faults, every collection's blocking
    acquisitions satisfy the condition, and every thread's program drops the guards it takes *)
-Definition wfB_gen (b : bscen) : bool :=
+Definition wfB_genz (np : bool) (b : bscen) : bool :=
   let sc := bs_sc b in
   is_nilb (sc_pre sc) && is_nilb (sc_f1 sc) && is_nilb (sc_fp sc) &&
-  forallb (closed false) (bs_progs b) &&
+  forallb (closedz np false) (bs_progs b) &&
   env_okb (sc_env sc).
+Definition wfB_gen : bscen -> bool := wfB_genz false.
 
-Lemma wfB_parts b : wfB_gen b = true ->
+Lemma wfB_partsz np b : wfB_genz np b = true ->
   env_ok blk_of (sc_env (bs_sc b)) /\ sc_pre (bs_sc b) = [] /\ sc_f1 (bs_sc b) = [] /\
-  sc_fp (bs_sc b) = [] /\ Forall (fun ops => closed false ops = true) (bs_progs b).
+  sc_fp (bs_sc b) = [] /\ Forall (fun ops => closedz np false ops = true) (bs_progs b).
 Proof.
-  unfold wfB_gen. intros W. repeat (apply andb_true_iff in W; destruct W as [W ?]).
+  unfold wfB_genz. intros W. repeat (apply andb_true_iff in W; destruct W as [W ?]).
   split; [now apply env_okb_ok|].
   split; [destruct (sc_pre (bs_sc b)); [reflexivity|discriminate]|].
   split; [destruct (sc_f1 (bs_sc b)); [reflexivity|discriminate]|].
@@ -598,10 +632,20 @@ Proof.
   apply Forall_forall. intros ops Ho. rewrite forallb_forall in H0. now apply H0.
 Qed.
 
-Lemma reach_GI_dec yr pb b sched : wfB_gen b = true ->
-  GI b blk_of (length (bs_progs b))
+Lemma wfB_parts b : wfB_gen b = true ->
+  env_ok blk_of (sc_env (bs_sc b)) /\ sc_pre (bs_sc b) = [] /\ sc_f1 (bs_sc b) = [] /\
+  sc_fp (bs_sc b) = [] /\ Forall (fun ops => closed false ops = true) (bs_progs b).
+Proof. apply wfB_partsz. Qed.
+
+Lemma reach_GI_decz yr pb np (pz : Prop) (PZ : np = false -> pz) b sched : wfB_genz np b = true ->
+  GI b blk_of pz np (length (bs_progs b))
      (fst (run_sched_g false yr pb (bs_wp b) (sc_env (bs_sc b)) (sc_nlocks (bs_sc b)) (binit b) sched)).
-Proof. intros W. destruct (wfB_parts b W) as [EO [PRE [F1 [FP CL]]]]. apply reach_GI; assumption. Qed.
+Proof. intros W. destruct (wfB_partsz np b W) as [EO [PRE [F1 [FP CL]]]]. apply reach_GI; assumption. Qed.
+
+Lemma reach_GI_dec yr pb b sched : wfB_gen b = true ->
+  GI b blk_of True false (length (bs_progs b))
+     (fst (run_sched_g false yr pb (bs_wp b) (sc_env (bs_sc b)) (sc_nlocks (bs_sc b)) (binit b) sched)).
+Proof. apply reach_GI_decz. intros _. exact I. Qed.
 End Decide.
 
 (* ---------------------------------------------------------------- C01 *)
@@ -781,7 +825,7 @@ Proof.
   intros W sc s th OV CU KE OK.
   pose proof (reach_GI_dec (fun _ => rank_ok (sc_nlocks sc) (rk_of sc)) (fun _ => rank_okb (sc_nlocks sc) (rk_of sc))
                            (fun _ H l => rank_okb_ok _ _ H l) false true b sched W) as G.
-  destruct (GI_boundary b _ _ _ t o k out G OV CU KE) as [H [K [A P]]].
+  destruct (GI_boundary b _ _ _ _ _ t o k out G OV CU KE) as [H [K [A P]]].
   exists H, K. split; [exact A|]. destruct out; try contradiction; exact P.
 Qed.
 
@@ -833,5 +877,63 @@ Proof.
   intros W sc.
   pose proof (reach_GI_dec (fun _ => rank_ok (sc_nlocks sc) (rk_of sc)) (fun _ => rank_okb (sc_nlocks sc) (rk_of sc))
                            (fun _ H l => rank_okb_ok _ _ H l) yr pb b sched W) as G.
-  exact (proj2 (proj2 (gi_clean _ _ _ _ G)) l).
+  exact (proj1 (proj2 (proj2 (gi_clean _ _ _ _ _ _ G))) l).
+Qed.
+
+(* ---------------------------------------------------------------- C10 on every schedule: executions without panics never poison *)
+(* the scenarios of [wfB] in which, in addition, no thread's program contains a `panic!` or a panicking closure *)
+Definition wfB_np (b : bscen) : bool :=
+  wfB_genz (fun _ => rank_okb (sc_nlocks (bs_sc b)) (rk_of (bs_sc b))) true b.
+
+Lemma closedz_weaken_np g ops : closedz true g ops = true -> closedz false g ops = true.
+Proof.
+  revert g. induction ops as [|o r IH]; intros g; cbn [closedz negb orb andb]; [auto|].
+  intros C. apply andb_true_iff in C. destruct C as [_ C]. revert C.
+  destruct o as [| | |c m f| | | | | | | | |]; try apply IH; try (intros X; exact X).
+  destruct f; apply IH.
+Qed.
+
+Lemma wfB_np_wfB b : wfB_np b = true -> wfB b = true.
+Proof.
+  unfold wfB_np, wfB, wfB_gen, wfB_genz. intros W.
+  repeat (apply andb_true_iff in W; destruct W as [W ?]).
+  repeat (apply andb_true_iff; split); try assumption.
+  rewrite forallb_forall in *. intros ops Ho. apply closedz_weaken_np. now apply H0.
+Qed.
+
+(* whatever the schedule (with or without pauses after releases and at call boundaries): if no thread's code panics, no
+   Poisonable is ever poisoned — every poison flag is clear in every reachable state *)
+Theorem every_schedule_no_panic_no_poison yr pb b sched p :
+  wfB_np b = true ->
+  let sc := bs_sc b in
+  w_psn (b_w (fst (run_sched_g false yr pb (bs_wp b) (sc_env sc) (sc_nlocks sc) (binit b) sched))) p = false.
+Proof.
+  intros W sc.
+  assert (PZ : true = false -> False) by discriminate.
+  pose proof (reach_GI_decz (fun _ => rank_ok (sc_nlocks sc) (rk_of sc)) (fun _ => rank_okb (sc_nlocks sc) (rk_of sc))
+                            (fun _ H l => rank_okb_ok _ _ H l) yr pb true False PZ b sched W) as G.
+  exact (proj2 (proj2 (proj2 (gi_clean _ _ _ _ _ _ G))) (fun x => x) p).
+Qed.
+
+(* ---------------------------------------------------------------- C06 on every schedule: a key that is in use is not obtainable *)
+(* at every call boundary of every schedule: if the thread's key is in its hand or inside its live guard, the thread-local
+   flag is set — ThreadKey::get() on that thread returns None, so no second key can come into existence *)
+Theorem every_schedule_key_in_use_flag_set b sched t o k out :
+  wfB b = true ->
+  let sc := bs_sc b in
+  let s := fst (run_sched_g false false true (bs_wp b) (sc_env sc) (sc_nlocks sc) (binit b) sched) in
+  let th := get_thr (b_thr s) t in
+  th_over th = false -> th_cur th = Some (o, Op bpause_op k) -> k (VBool false) = term_of out ->
+  (match out with ODone _ | OPanic => True | _ => False end) ->
+  let lc' := fst (api_fin (sc_env sc) (th_loc th) o out) in
+  haskey lc' = true \/ guard lc' <> None ->
+  w_keyf (b_w s) t = true.
+Proof.
+  intros W sc s th OV CU KE OK lc' HG.
+  destruct (every_schedule_call_boundary b sched t o k out W OV CU KE OK) as [H [K [A [T _]]]].
+  fold sc in T. fold s in T. fold th in T. fold lc' in T.
+  destruct A as [_ [_ AK]]. subst s sc. rewrite AK. unfold TB in T.
+  destruct (guard lc') as [g|] eqn:G.
+  - destruct T as [_ [_ E]]. exact E.
+  - destruct T as [_ E]. destruct HG as [HK|NG]; [now apply E|contradiction].
 Qed.
